@@ -484,7 +484,17 @@ func caseSensitiveUse(v ssa.Value, depth int, seen map[ssa.Value]bool) ssa.Instr
 			return x
 		case ssa.CallInstruction:
 			cn := CalleeName(x.Common())
-			if NameMatch(cn, "strings.EqualFold") || NameMatch(cn, "strings.ToLower") || NameMatch(cn, "strings.ToUpper") {
+			if NameMatch(cn, "strings.EqualFold") {
+				continue
+			}
+			if NameMatch(cn, "strings.ToLower") || NameMatch(cn, "strings.ToUpper") {
+				// the folded string is case-insensitive only as long as it is compared with constants
+				// that are themselves in that case
+				if val, ok := x.(ssa.Value); ok {
+					if at := foldedUse(val, NameMatch(cn, "strings.ToLower"), map[ssa.Value]bool{}); at != nil {
+						return at
+					}
+				}
 				continue
 			}
 			if bi, ok := x.Common().Value.(*ssa.Builtin); ok && bi.Name() == "len" {
@@ -503,6 +513,58 @@ func caseSensitiveUse(v ssa.Value, depth int, seen map[ssa.Value]bool) ssa.Instr
 				if bad != nil {
 					return bad
 				}
+				continue
+			}
+			return r
+		default:
+			return r
+		}
+	}
+	return nil
+}
+
+// foldedUse returns a use of the case-folded string v other than a comparison with a constant in
+// the same case (or an emptiness / length test); nil when there is none.
+func foldedUse(v ssa.Value, lower bool, seen map[ssa.Value]bool) ssa.Instruction {
+	if seen[v] || v.Referrers() == nil {
+		return nil
+	}
+	seen[v] = true
+	for _, r := range *v.Referrers() {
+		switch x := r.(type) {
+		case *ssa.DebugRef:
+			continue
+		case *ssa.Phi:
+			if at := foldedUse(x, lower, seen); at != nil {
+				return at
+			}
+		case *ssa.ChangeType:
+			if at := foldedUse(x, lower, seen); at != nil {
+				return at
+			}
+		case *ssa.Convert:
+			if at := foldedUse(x, lower, seen); at != nil {
+				return at
+			}
+		case *ssa.BinOp:
+			other := x.Y
+			if other == v {
+				other = x.X
+			}
+			k, ok := other.(*ssa.Const)
+			if !ok || k.Value == nil || k.Value.Kind() != constant.String {
+				return x
+			}
+			sv := constant.StringVal(k.Value)
+			if (lower && sv != strings.ToLower(sv)) || (!lower && sv != strings.ToUpper(sv)) {
+				return x
+			}
+		case ssa.CallInstruction:
+			if bi, ok := x.Common().Value.(*ssa.Builtin); ok && bi.Name() == "len" {
+				continue
+			}
+			cn := CalleeName(x.Common())
+			if NameMatch(cn, "strings.EqualFold") || NameMatch(cn, "strings.TrimSpace") {
 				continue
 			}
 			return r
